@@ -43,6 +43,10 @@ class DuplicateStorage:
         if blocks:
             self._cache.add_blocks(file_path, blocks)
 
+    def close(self) -> None:
+        """Release the underlying SQLite cache (and its tempfile, if any)."""
+        self._cache.close()
+
     @property
     def duplicate_hashes(self) -> list[int]:
         """Hash values with 2+ occurrences from SQLite.
